@@ -21,6 +21,7 @@ pub mod c14;
 pub mod c15;
 pub mod c16;
 pub mod c17;
+pub mod c18;
 pub mod c19;
 pub mod c20;
 pub mod e2e;
@@ -39,7 +40,7 @@ pub fn sim_case(opts: &crate::simnet::gen::GenOpts) -> proptest::strategy::Boxed
 }
 
 pub fn all() -> Vec<PropertyCheck> {
-    vec![c01::check(), c02::check(), c03::check(), c04::check(), c05::check(), c06::check(), c07::check(), c08::check(), c09::check(), c10::check(), c11::check(), c12::check(), c13::check(), c14::check(), c15::check(), c16::check(), c17::check(), c19::check(), c20::check()]
+    vec![c01::check(), c02::check(), c03::check(), c04::check(), c05::check(), c06::check(), c07::check(), c08::check(), c09::check(), c10::check(), c11::check(), c12::check(), c13::check(), c14::check(), c15::check(), c16::check(), c17::check(), c18::check(), c19::check(), c20::check()]
 }
 
 pub fn by_id(id: &str) -> Option<PropertyCheck> {
